@@ -7,6 +7,7 @@ import (
 	"os"
 	"sort"
 	"strings"
+	"time"
 )
 
 // Violation is one finding of an engine run.
@@ -93,6 +94,12 @@ type Opts struct {
 
 var engines = map[string]func(o Opts) *Result{}
 
+// timeUp: engines stop generating new cases once the wall-clock budget (-budget seconds, 0 = none) is used up. The search
+// that follows a broken proof obligation / correspondence runs at the thorough case count under such a budget.
+var budgetDeadline time.Time
+
+func timeUp() bool { return !budgetDeadline.IsZero() && time.Now().After(budgetDeadline) }
+
 // checkFor is the property whose check runs this engine ("" = stop at the first violation of anything).
 var checkFor string
 
@@ -117,8 +124,12 @@ func main() {
 	fs.StringVar(&o.Out, "out", "", "result JSON path")
 	fs.IntVar(&o.Only, "only", -1, "run only the case with this index (replay)")
 	fs.StringVar(&o.Replay, "replay", "", "replay file")
+	budget := fs.Int("budget", 0, "wall-clock budget in seconds for generating cases (0 = none)")
 	fs.StringVar(&checkFor, "for", "", "property under check: monitor violations that do not speak about it do not end a scenario")
 	_ = fs.Parse(os.Args[2:])
+	if *budget > 0 {
+		budgetDeadline = time.Now().Add(time.Duration(*budget) * time.Second)
+	}
 	f, ok := engines[eng]
 	if !ok {
 		infra("unknown engine %q", eng)
